@@ -15,10 +15,16 @@ import (
 	xxhash "github.com/cespare/xxhash/v2"
 	"google.golang.org/grpc/balancer"
 	"google.golang.org/grpc/connectivity"
+	"google.golang.org/grpc/experimental/balancer/weight"
 	iringhash "google.golang.org/grpc/internal/ringhash"
+	"google.golang.org/grpc/internal/testutils"
 	"google.golang.org/grpc/metadata"
 	"google.golang.org/grpc/resolver"
+	rhattr "google.golang.org/grpc/resolver/ringhash"
 )
+
+// vRingHashT is the running test (the test ClientConn of op 6 logs through it).
+var vRingHashT *testing.T
 
 // C37 driver (engine RingHash).  Case format: see coq/model/RingHash.v.
 //
@@ -27,6 +33,10 @@ import (
 //	    [2, h]              ring.pick(h)
 //	    [3, h, s_0..]       picker.Pick with the xDS request hash h
 //	    [4, h, s_0..]       picker.Pick with a random hash h (header configured, not sent)
+//	    [6, a_1, i_1, .., a_k, i_k]
+//	                        resolver update through the real balancer of the case
+//	                        (Build + UpdateClientConnState -> UpdateState -> newRing):
+//	                        address a_j carries hash key and weight of cfg endpoint i_j
 //	    [5, hdr, xdsp, xh, mdp, nv, v_1..v_nv, hj, r, s_0..]
 //	                        picker.Pick, hash source chosen by the real code: header
 //	                        configured (hdr), xDS hash xh in the context (xdsp), outgoing
@@ -193,6 +203,14 @@ func vRingHashExec(cfg []int64, ops [][]int64) ([][]int64, bool, []string) {
 	tags := map[string]bool{}
 	builds := map[string]int{}
 	multi, walked := false, false
+	var vb balancer.Balancer // the real balancer of the case (op 6), built on first use
+	defer func() {
+		if vb != nil {
+			vb.Close()
+		}
+	}()
+	// prev: what the balancer currently knows per address (cfg index), for the tags
+	prev := map[int64]int64{}
 	for _, op := range ops {
 		if len(op) == 0 {
 			obs = append(obs, nil)
@@ -238,6 +256,82 @@ func vRingHashExec(cfg []int64, ops [][]int64) ([][]int64, bool, []string) {
 			}
 			if int64(len(idxs)) > maxR {
 				tags["endpoints>max"] = true
+			}
+		case op[0] == 6:
+			rest := op[1:]
+			var addrs, idxs []int64
+			okp := len(rest)%2 == 0
+			seenA := map[int64]bool{}
+			for j := 0; okp && j+1 < len(rest); j += 2 {
+				if seenA[rest[j]] {
+					okp = false
+				}
+				seenA[rest[j]] = true
+				addrs = append(addrs, rest[j])
+				idxs = append(idxs, rest[j+1])
+			}
+			if !okp || !vRingHashSelect(eps, idxs) {
+				obs = append(obs, nil)
+				continue
+			}
+			if vb == nil {
+				cc := testutils.NewBalancerClientConn(vRingHashT)
+				vb = bb{}.Build(cc, balancer.BuildOptions{})
+			}
+			var res []resolver.Endpoint
+			keys := map[string]int64{}
+			m := resolver.NewEndpointMap[*endpointState]()
+			both := false
+			cur := map[int64]int64{}
+			for j, i := range idxs {
+				ks := vRingHashKeyStr(eps[i].key)
+				keys[ks] = eps[i].key
+				e := resolver.Endpoint{Addresses: []resolver.Address{{Addr: "vrh-addr-" + strconv.FormatInt(addrs[j], 10)}}}
+				e = rhattr.SetHashKey(e, ks)
+				e = weight.Set(e, weight.EndpointInfo{Weight: uint32(eps[i].weight)})
+				res = append(res, e)
+				m.Set(vRingHashEndpoint(i), &endpointState{hashKey: ks, weight: uint32(eps[i].weight)})
+				cur[addrs[j]] = i
+				if pi, known := prev[addrs[j]]; known && pi != i && eps[pi].weight != eps[i].weight {
+					both = true
+				}
+			}
+			prev = cur
+			err := vb.UpdateClientConnState(balancer.ClientConnState{
+				ResolverState:  resolver.State{Endpoints: res},
+				BalancerConfig: &iringhash.LBConfig{MinRingSize: uint64(minR), MaxRingSize: uint64(maxR)},
+			})
+			rb := vb.(*ringhashBalancer)
+			rb.mu.Lock()
+			r := rb.ring
+			rb.mu.Unlock()
+			if err != nil || r == nil {
+				obs = append(obs, []int64{-1})
+				continue
+			}
+			w = &vRingHashWorld{ring: r, idxs: append([]int64(nil), idxs...), m: m, keys: keys}
+			o := []int64{int64(len(r.items))}
+			for pos, it := range r.items {
+				k, found := keys[it.hashKey]
+				if !found || it.idx != pos {
+					k = -2
+				}
+				o = append(o, k, int64(it.hash))
+			}
+			obs = append(obs, o)
+			if len(idxs) >= 2 {
+				multi = true
+			}
+			tags["update"] = true
+			if both {
+				tags["update-key+weight"] = true
+			}
+			srt := append([]int64(nil), idxs...)
+			sort.Slice(srt, func(a, b int) bool { return srt[a] < srt[b] })
+			sk := fmt.Sprint(srt)
+			builds[sk]++
+			if builds[sk] > 1 {
+				tags["rebuild-same-set"] = true
 			}
 		case op[0] == 2 && len(op) == 2:
 			if w == nil || len(w.ring.items) == 0 {
@@ -336,6 +430,7 @@ type vRingHashPlan struct {
 	minR, maxR int64
 	keys, ws   []int64
 	builds     [][]int64 // index lists
+	addrs      [][]int64 // parallel to builds: nil = op 1 (newRing), else op 6 (balancer update) with these addresses
 }
 
 func vRingHashHash(key int64, idx int) uint64 {
@@ -417,8 +512,16 @@ func vRingHashEmit(r *vRand, p *vRingHashPlan, picksPerBuild int) ([]int64, [][]
 		}
 	}
 	var ops [][]int64
-	for _, b := range p.builds {
-		ops = append(ops, vCat([]int64{1}, b))
+	for bi, b := range p.builds {
+		if bi < len(p.addrs) && p.addrs[bi] != nil {
+			op := []int64{6}
+			for j := range b {
+				op = append(op, p.addrs[bi][j], b[j])
+			}
+			ops = append(ops, op)
+		} else {
+			ops = append(ops, vCat([]int64{1}, b))
+		}
 		for k := 0; k < picksPerBuild; k++ {
 			switch r.Intn(7) {
 			case 0:
@@ -504,6 +607,11 @@ func vRingHashGen(r *vRand, tier string, idx int) ([]int64, [][]int64) {
 	case 6: // skewed: scale = sum/min capped by max
 		fixed([]int64{1, 5000, 17}, 16, 128)
 		return vRingHashEmit(r, p, 8)
+	case 8: // one update changes weight AND hash key of a known endpoint
+		fixed([]int64{1, 1, 1, 3}, 4, 16)
+		p.builds = [][]int64{{0, 1, 2}, {0, 3, 2}, {2, 0, 3}}
+		p.addrs = [][]int64{{0, 1, 2}, {0, 1, 2}, nil}
+		return vRingHashEmit(r, p, 6)
 	case 7: // largest weights whose sum does not wrap
 		fixed([]int64{math.MaxUint32 - 3, 1, 2}, 64, 64)
 		return vRingHashEmit(r, p, 8)
@@ -589,13 +697,42 @@ func vRingHashGen(r *vRand, tier string, idx int) ([]int64, [][]int64) {
 			p.builds = append(p.builds, vRingHashPerm(r, all))
 		}
 	}
-	picks := 8
+	p.addrs = make([][]int64, len(p.builds))
+	if n >= 3 {
+		// resolver updates through the real balancer: k address slots; slot j first
+		// carries cfg endpoint perm[j]; then one or two slots are re-pointed to unused
+		// cfg endpoints (new hash key, usually a new weight) in ONE update; then the
+		// same final set is built directly (op 1) for comparison
+		perm := vRingHashPerm(r, all)
+		k := 1 + r.Intn(n-1)
+		if k > n-1 {
+			k = n - 1
+		}
+		slots := vRingHashIota(k)
+		first := append([]int64(nil), perm[:k]...)
+		second := append([]int64(nil), first...)
+		second[r.Intn(k)] = perm[k]
+		if k+1 < n && k >= 2 && r.Bool() {
+			j := r.Intn(k)
+			if second[j] == first[j] {
+				second[j] = perm[k+1]
+			}
+		}
+		p.builds = append(p.builds, first, second, vRingHashPerm(r, second))
+		p.addrs = append(p.addrs, slots, slots, nil)
+		if r.Bool() { // and back again
+			p.builds = append(p.builds, first)
+			p.addrs = append(p.addrs, slots)
+		}
+	}
+	picks := 6
 	if p.maxR > 200 {
-		picks = 3
+		picks = 2
 	}
 	return vRingHashEmit(r, p, picks)
 }
 
 func TestVerif_RingHash(t *testing.T) {
+	vRingHashT = t
 	vRunDriver(t, "RingHash", 40, 800, vRingHashGen, vRingHashExec)
 }
